@@ -31,5 +31,8 @@ SPEC = {
                     "cmp_panics_on_missing_any_constructor; DESIGN §6 #7, outside the property's quantifier)"],
     "explanation": "Order laws are proved for all values (mutual structural induction, any depth/width); the harness oracle checks "
                    "reflexivity/antisymmetry/transitivity on every triple of each case on the real impl, equality up to def/indef by an "
-                   "independent structural comparison, round trip structurally, and the 64-byte chunk shape by an independent CBOR walker.",
+                   "independent structural comparison, round trip structurally, and the 64-byte chunk shape by an independent CBOR walker. "
+                   "Self-tests run (pallas worktree edits, reverted): BigInt::cmp without `.reverse()` for two negatives -> VIOLATION "
+                   "order-transitive (-0 < -1 < +0 = -0); CHUNK_SIZE 32 -> VIOLATION chunking; decoder tag range 1280..=1399 -> VIOLATION "
+                   "roundtrip-decode-error; refactor skip_while -> position+slice in to_bytes -> quiet.",
 }
